@@ -88,6 +88,11 @@ func (r result) ok() bool { return !r.NotRun && r.Fatal == "" && r.Err == "" && 
 
 const maxEvents = 3 // see runJobs
 
+// hangAfter: a helper that has not answered one job for this long is declared hung and killed. Generous: on a
+// machine shared with fifteen other checks a parameter-set decode (factoring q-1 for dozens of primes) has been
+// seen to take tens of seconds of wall time, and a premature verdict would not be reproducible.
+const hangAfter = 5 * time.Minute
+
 func fillOutcome(r *result, o outcome) {
 	if o.err != nil {
 		r.Err = o.err.Error()
@@ -201,14 +206,23 @@ func validity(e *entry, d decoder, recv any, tripwire bool) (kind, msg string) {
 var allocSeen = map[[32]uintptr][2]int64{}
 
 func bigAllocSite() string {
-	runtime.GC() // the heap profile lags allocation by up to two completed collection cycles
-	runtime.GC()
-	runtime.GC()
+	for attempt := 0; attempt < 4; attempt++ {
+		runtime.GC() // the heap profile lags allocation by up to two completed collection cycles
+		runtime.GC()
+		runtime.GC()
+		if site, ok := bigAllocSiteOnce(); ok {
+			return site
+		}
+	}
+	return ""
+}
+
+func bigAllocSiteOnce() (string, bool) {
 	n, _ := runtime.MemProfile(nil, true)
-	recs := make([]runtime.MemProfileRecord, n+64)
+	recs := make([]runtime.MemProfileRecord, n+256)
 	n, ok := runtime.MemProfile(recs, true)
 	if !ok {
-		return ""
+		return "", false
 	}
 	// the call stack whose allocations since the previous look were individually huge (>= 32 MiB per object on
 	// average: the harmless 2^19 probes of other fields, a dozen MiB each, do not qualify), largest total first
@@ -216,22 +230,24 @@ func bigAllocSite() string {
 	for i := 0; i < n; i++ {
 		prev := allocSeen[recs[i].Stack0]
 		db, do := recs[i].AllocBytes-prev[0], recs[i].AllocObjects-prev[1]
-		allocSeen[recs[i].Stack0] = [2]int64{recs[i].AllocBytes, recs[i].AllocObjects}
 		if do > 0 && db/do >= 32<<20 && db > bestDelta {
 			best, bestDelta = i, db
 		}
 	}
 	if best < 0 {
-		return ""
+		return "", false // not published yet: look again (nothing is marked as seen)
+	}
+	for i := 0; i < n; i++ {
+		allocSeen[recs[i].Stack0] = [2]int64{recs[i].AllocBytes, recs[i].AllocObjects}
 	}
 	frames := runtime.CallersFrames(recs[best].Stack())
 	for {
 		f, more := frames.Next()
 		if strings.Contains(f.Function, "tuneinsight/lattigo") {
-			return normFunc(f.Function)
+			return normFunc(f.Function), true
 		}
 		if !more {
-			return ""
+			return "", true
 		}
 	}
 }
@@ -427,7 +443,7 @@ func runJobs(hdr batch, jobs []job) []result {
 			hang := false
 			select {
 			case lr = <-ch:
-			case <-time.After(60 * time.Second):
+			case <-time.After(hangAfter):
 				hang = true
 			}
 			var r result
